@@ -54,7 +54,7 @@ def same(A, label, before, now, out):
             out.append((label + '-leaf', A.bool(now is old) if A.symbolic and isinstance(old, symx.Sym) else A.eq(now, old)))
 
 
-def h_dt_data(f, N, mode):
+def h_dt_data(f, N, mode, period=None, txt=None):
     f = T(f)
     vs = sorted(variables(f))
 
@@ -63,7 +63,7 @@ def h_dt_data(f, N, mode):
         res = []
         w = dt.trace(env, vs, N, ext=False)
         if mode == 'offline':
-            s = dt.make_spec('offline', 'out = ' + text(f), vs)
+            s = dt.make_spec('offline', 'out = ' + (txt or text(f)), vs, period=period)
             data = {'time': list(range(N))}
             for v in vs:
                 data[v] = list(w[v])
@@ -75,6 +75,9 @@ def h_dt_data(f, N, mode):
             same(A, 'data2', before, data, res)
             env.observe('out', r1v)
             res += dt.eq_list(A, 'repeat', [p[1] for p in r2], r1v)
+            r3 = s.evaluate(data)
+            res += dt.eq_list(A, 'repeat3', [p[1] for p in r3], r1v)
+            res += dt.eq_list(A, 'repeat-rho', r1v, refsem.rho(A, f, w, N))
         else:
             s = dt.make_spec('online', 'out = ' + text(f), vs)
             outs = []
@@ -215,6 +218,11 @@ def obligations(tier, rng):
             out.append(ob('C11', 'dt_data', 'data/dt-offline/%s/N=%d' % (text(f), N), f=f, N=N, mode='offline'))
             if not refsem.has_future(f) and N in (2, 4):
                 out.append(ob('C11', 'dt_data', 'data/dt-online/%s/N=%d' % (text(f), N), f=f, N=N, mode='online'))
+    # repeated evaluation when bounds are not plain sample counts (sampling period / explicit units)
+    for f, txt, period in [(('always_t', X, 0, 2), 'always[0,1](x)', (500, 'ms', 0.1)), (('once_t', X, 1, 2), 'once[500ms,1s](x)', (500, 'ms', 0.1)),
+                           (('eventually_t', X, 0, 2), 'eventually[0,2000ms](x)', None), (('since_t', X, Y, 1, 2), '(x) since[1s,2000ms] (y)', None),
+                           (('until_t', X, Y, 0, 2), '(x) until[0,1](y)', (500, 'ms', 0.1)), (('historically_t', X, 1, 3), 'historically[1000ms,3s](x)', None)]:
+        out.append(ob('C11', 'dt_data', 'repeat-units/%s/p=%s' % (txt, period), f=f, N=5, mode='offline', txt=txt, period=list(period) if period else None))
     dense_un = ['not', 'abs', 'once', 'historically', 'eventually', 'always']
     dense_bin = ['and', 'or', 'implies', 'sub', 'geq', 'eq', 'since', 'until']
     dfs = [(k, X) for k in dense_un] + [(k, X, a, b) for k in ('once_t', 'historically_t', 'eventually_t', 'always_t') for a, b in [(0, 1), (1, 2)]]
